@@ -58,6 +58,9 @@ def parse(expr: str):
 
     while not scanner.eof():
         scanner.eat_while(is_white_space)
+        if scanner.eof():
+            # Trailing whitespace
+            break
         scanner.start = scanner.pos
 
         if consume_number(scanner):
